@@ -193,6 +193,11 @@ def report(case, f, mode='stack'):
     """finding tuple (prop, clause, msg, trait) on a case -> violation record with minimal input and witness class"""
     prop, clause, msg, trait = f
     code, S, V, env = case['code'], case['S'], case['V'], case['env']
+    if clause == 'requires.input_accepted':
+        i = int(trait.split()[1])
+        where = f'input :: {E.tstr(S[i], 6)} [{vclass(S[i], V[i])}]'
+        return dict(prop=prop, oid=f'{prop}::{clause}', wclass=where, message=f'{where}: {msg}',
+                    case=jcase([], (S[i],), (V[i],), env, prop, clause), id=case['id'])
     iso = isolate(code, S, V, env, prop) if mode == 'stack' else None
     if iso:
         where = E.describe(iso['ins'], iso['S']) + ' [' + vtraits(iso['ins'], iso['S'], iso['V']) + ']'
